@@ -240,6 +240,24 @@ static void macro_blocks()
     }
 }
 
+// ---- long strings: every length 1..LMAX for a key, a key with a value, and a value; alone, first, last and in the middle of a block
+static void long_strings(int LMAX)
+{
+    const bool rp = vp::replaying();
+    for(int L = 1; L <= LMAX; ++L) for(int kind = 0; kind < 3; ++kind) for(int pos = 0; pos < 4; ++pos, ++g_top) {
+        if(!vp::mine(g_top)) continue;
+        std::string cid = "long|" + std::to_string(L) + "|" + std::to_string(kind) + "|" + std::to_string(pos);
+        if(rp && !vp::want(cid)) continue;
+        std::string big(L, 'x'); for(int k = 0; k < L; k += 7) big[k] = (char)('a' + (k / 7) % 26);
+        Entry e = kind == 0 ? Entry{big, false, ""} : kind == 1 ? Entry{big, true, "v"} : Entry{"key", true, big};
+        std::vector<Entry> es;
+        if(pos == 2 || pos == 3) es.push_back(kv("min", "0"));
+        es.push_back(e);
+        if(pos == 1 || pos == 3) { es.push_back(kv("max", "127")); es.push_back(k_("last")); }
+        generated_case(es, cid);
+    }
+}
+
 int main(int argc, char **argv)
 {
     vp::init(argc, argv, "C17");
@@ -256,7 +274,9 @@ int main(int argc, char **argv)
     vp::bound("family_tiny", "2 keys x 4 values: all blocks of 5.." + std::string(T ? "8" : "7") + " entries");
     vp::bound("macro_blocks", "12 ports written with rParamI rParamF rToggle rOption rArrayI rAction rString rParam rProp rMap rDoc rOptions rLinear rLog rPresets rDepends rDefaultId ...");
 
+    vp::bound("long_strings", "a key (valueless / with value) or a value of every length 1.." + std::string(T ? "4100" : "1030") + ", alone, first, last and in the middle of a block");
     macro_blocks();
+    long_strings(T ? 4100 : 1030);
     run_family(full, 1); run_family(full, 2);
     run_family(medium, 3);
     run_family(small, 4);
